@@ -308,6 +308,12 @@ pub fn ops_plan<T: Subj>(tier: Tier) -> Plan<T> {
     }
     // the 196 assign sequences run against the first 8 values of the second register only (heavy)
     let mut p = panic_plan::<T>(tier).with_aux(Aux::BitIdx, amounts).with_aux(Aux::Custom, seqcodes).with_aux(Aux::K(20), folds).with_heavy_limit(8);
+    if T::N > 4 {
+        // many-digit shapes: an evenly spaced subset (about 72 values) of the sparse boundary set on both sides
+        let step = (p.a.len() / 72).max(1);
+        p.a = p.a.iter().step_by(step).cloned().collect();
+        p.b = p.a.clone();
+    }
     // the third register of the assign sequences: a handful of values
     p.c = p.a.iter().take(6).cloned().collect();
     if T::BITS == 8 {
